@@ -656,6 +656,9 @@ Definition fuel : nat := Z.to_nat 50000%Z.
 """
 
 
+PROGRAM = ["program"]      # "program_chk" while the overflow-checked translation is being tied
+
+
 def run_shards(tag, terms, shard=120, timeout=900):
     """-> list of verdicts (0 agree, 1 differ, 2 interpreter error, None = shard failed), logs"""
     d = cm.scratch() / f"tie_{tag}_{len(list(cm.scratch().glob('tie_*')))}"
@@ -664,10 +667,12 @@ def run_shards(tag, terms, shard=120, timeout=900):
     for si in range(0, len(terms), shard):
         chunk = terms[si: si + shard]
         p = d / f"Tie_{re.sub(r'[^A-Za-z0-9]', '_', tag)}_{si // shard}.v"
-        p.write_text(HEADER + "Definition cases : list tcase := [\n" + ";\n".join(chunk) + "].\n"
-                     "Definition verdicts := Eval vm_compute in (map (tie_verdict program fuel) cases).\n"
+        prog = PROGRAM[0]
+        head = HEADER.replace("Gen.KernelsAst.", "Gen.KernelsAst Gen.KernelsAstChk.") if prog != "program" else HEADER
+        p.write_text(head + "Definition cases : list tcase := [\n" + ";\n".join(chunk) + "].\n"
+                     f"Definition verdicts := Eval vm_compute in (map (tie_verdict {prog} fuel) cases).\n"
                      "Print verdicts.\n"
-                     "Example agree : map (tie_verdict program fuel) cases = verdicts.\n"
+                     f"Example agree : map (tie_verdict {prog} fuel) cases = verdicts.\n"
                      "Proof. vm_cast_no_check (eq_refl verdicts). Qed.\n")
         files.append((si, len(chunk), p))
     return files
@@ -682,27 +687,29 @@ def parse_verdicts(out, n):
 
 
 def ensure_ast():
-    """Gen/KernelsAst.v of the tree under test, compiled"""
-    from harness.extractors import minic
-    text = minic.render(cm.REPO)
+    """Gen/KernelsAst.v and Gen/KernelsAstChk.v of the tree under test, compiled"""
+    from harness.extractors import minic, minic_chk
     lk = cm._lock()
     try:
-        p = cm.COQ / "Gen" / "KernelsAst.v"
-        if not p.exists() or p.read_text() != text:
-            p.write_text(text)
+        for mod, name in ((minic, "KernelsAst"), (minic_chk, "KernelsAstChk")):
+            text = mod.render(cm.REPO)
+            p = cm.COQ / "Gen" / f"{name}.v"
+            if not p.exists() or p.read_text() != text:
+                p.write_text(text)
     finally:
         lk.close()
-    ok, log = cm.coq_make(["Gen/KernelsAst.vo"], timeout=900)
+    ok, log = cm.coq_make(["Gen/KernelsAst.vo", "Gen/KernelsAstChk.vo"], timeout=900)
     if not ok:
-        raise RuntimeError("Gen/KernelsAst.vo does not build:\n" + log[-2000:])
+        raise RuntimeError("Gen/KernelsAst(Chk).vo does not build:\n" + log[-2000:])
 
 
-def run(names=None, n=200, seed="0"):
+def run(names=None, n=200, seed="0", checked=False):
     """Run the tie for the kernels `names` (default: all).  -> dict
     {"kernels": {name: {"cases", "mismatches", "ub", "nonzero", "first": (index, what, term) | None,
                         "status": str (only when skipped)}},
      "failed_shards": [(name, shard, log)], "not_executable": {name: str}, "bad": int, "wall_s": float}"""
     t0 = time.time()
+    PROGRAM[0] = "program_chk" if checked else "program"
     ensure_ast()
     rep = dict(ctrans.report(cm.REPO))
     lib = ctypes.CDLL(str(cm.build_kernel_lib()))
@@ -788,23 +795,24 @@ def run(names=None, n=200, seed="0"):
     return res
 
 
-def check(ctx, kernels, n=None):
+def check(ctx, kernels, n=None, checked=False):
     """Obligation of a property check: the MiniC translation of `kernels` (regenerated from the
     tree under test) executes, in binary64 inside Coq, exactly like the compiled kernels on
     `n` generated argument lists each.  A disagreement is reported (the translator, the
     interpreter or the refinement hypotheses no longer describe the code)."""
     n = n or (200 if ctx.thorough else 40)
-    res = run(kernels, n=n, seed=str(ctx.seed))
+    res = run(kernels, n=n, seed=str(ctx.seed), checked=checked)
+    tag = "MiniC tie (overflow-checked program_chk)" if checked else "MiniC tie"
     summary = {}
     for name, k in res["kernels"].items():
         ok = k["mismatches"] == 0 and "status" not in k
-        ctx.obligation(f"MiniC tie {name}: interpreter = compiled kernel on {k['cases']} cases", ok)
+        ctx.obligation(f"{tag} {name}: interpreter = compiled kernel on {k['cases']} cases", ok)
         summary[name] = {x: k[x] for x in ("cases", "mismatches", "ub", "nonzero")}
         if "status" in k:
             summary[name]["status"] = k["status"]
         if not ok:
             first = k["first"]
-            ctx.failure(f"{ctx.pid}/minic-tie/{name}",
+            ctx.failure(f"{ctx.pid}/minic-tie{'-chk' if checked else ''}/{name}",
                         {"broken": f"MiniC translation of {name} vs compiled kernel",
                          "status": k.get("status"), "mismatches": k["mismatches"],
                          "first": None if first is None else {"index": first[0], "what": first[1],
@@ -815,7 +823,7 @@ def check(ctx, kernels, n=None):
         ctx.obligation(f"MiniC tie shard {name}/{si} compiled", False)
         ctx.failure(f"{ctx.pid}/minic-tie-shard", {"broken": f"tie shard {name}/{si}", "log": log},
                     "a MiniC tie case file failed to compile", nofail=True)
-    ctx.notes["minic_tie"] = summary
+    ctx.notes["minic_tie_chk" if checked else "minic_tie"] = summary
     return res["bad"] == 0 and not res["failed_shards"]
 
 
@@ -825,8 +833,9 @@ def main(argv=None):
     ap.add_argument("--n", type=int, default=200)
     ap.add_argument("--seed", default=os.environ.get("VERIF_SEED", "0"))
     ap.add_argument("--keep", action="store_true", help="print the scratch directory and keep it")
+    ap.add_argument("--checked", action="store_true", help="tie the overflow-checked translation program_chk")
     a = ap.parse_args(argv)
-    res = run(a.kernel, n=a.n, seed=a.seed)
+    res = run(a.kernel, n=a.n, seed=a.seed, checked=a.checked)
     total = 0
     for name, k in res["kernels"].items():
         if "status" in k:
